@@ -1,9 +1,10 @@
 (* C16/Extract.v — extraction of the executable model (ExtrOcamlBasic only) *)
 Require Extraction. Require ExtrOcamlBasic.
-From NV Require Import Base.Bytes C16.Tables C16.Model C16.ModelAffine.
+From NV Require Import Base.Bytes C16.Tables C16.Model C16.ModelAffine C16.ModelLazy.
 Extraction Language OCaml.
 Extraction "c16_model.ml" ndigits dec_str tck_hdr_offset tck_header tck_save tck_parse_header
   tck_bufsize tck_read_data tck_read_all tck_load enc_points triples_of
   trk_offs_now wf_offs trk_save trk_load trk_record rows_of words_of enc_list
   tck_session trk_session
-  order_ornt io_orient_sp to_rasmm to_trackvis aff_apply all_ornts.
+  order_ornt io_orient_sp to_rasmm to_trackvis aff_apply all_ornts
+  lz_of_tractogram lz_of_data_func lz_streamlines lz_items lz_apply_affine lz_to_world aff_red.
